@@ -6,7 +6,7 @@ import ast
 import inspect
 import sys
 
-from .modules import ModuleInfo, find_function
+from .modules import _matches_head, ModuleInfo, find_function
 from .engine import LoopSpec
 from . import values as V
 
@@ -44,13 +44,13 @@ class Contract(object):
 
     def bind(self):
         """locate the real function and the spec ASTs"""
-        self.mod, self.node, self.clsnode = find_function(self.target)
+        self.mod, self.node, self.clsnode = find_function(self.target, getattr(self.cls, "fragment_head", None))
         if getattr(self.node, "is_fragment", False):
             # a loop of a larger function, extracted mechanically on every run: its free variables are the declared parameters,
             # its result the declared live-out variables; everything of the enclosing function outside the statement is dropped
             self.node.args.args = [ast.arg(arg=p, annotation=None) for p in self.params]
             head = getattr(self.cls, "fragment_head", None)
-            if head is not None and getattr(self.node, "first_text", None) is not None and norm_stmt(head) != self.node.first_text:
+            if head is not None and getattr(self.node, "first_stmt", None) is not None and not _matches_head(self.node.first_stmt, head):
                 raise KeyError("fragment of %s no longer starts with %r (found %r)" % (self.target, head, self.node.first_text))
             outs = tuple(getattr(self.cls, "fragment_result", ()))
             ret = ast.Return(value=ast.Tuple(elts=[ast.Name(id=o, ctx=ast.Load()) for o in outs], ctx=ast.Load()))
